@@ -24,7 +24,7 @@ def datahub_stage(v, sd, binary, name, *, ds, ent, contents, preds=("p",), max_b
                   per_world=400, rotate=False, target=None, track_pre=False, replay_fn=None):
     """One TLC run of spec/Datahub.tla (exhaustive or simulation) + replay of everything it emitted."""
     consts = {"DsSeq": list(ds), "Ent": set(ent), "MaxBatch": max_batch, "MaxSteps": max_steps, "Acts": set(acts),
-              "ObsKinds": set(kinds), "Limits": set(limits), "Fan": fan, "Precreated": spec.startswith("SpecCreated"), "Writable": set(ds), "TrackPre": track_pre,
+              "ObsKinds": set(kinds), "Limits": set(limits), "Fan": fan, "Precreated": spec.startswith("SpecCreated"), "Writable": set(ds), "TrackPre": track_pre, "Allowed": set(),
               "Readers": set() if not readers else verif.Raw("{" + ", ".join(verif.tla_value(r) for r in readers) + "}")}
     constraint = "Emit"
     if sample:
@@ -425,7 +425,7 @@ def jobs_stage(v, sd, binary, name, *, ds, ent, contents, jobs, writable, faults
                tlc_timeout=1500, track_pre=False, replay_fn=None):
     consts = {"DsSeq": list(ds), "Ent": set(ent), "MaxBatch": max_batch, "MaxSteps": max_steps, "Acts": set(acts),
               "ObsKinds": set(kinds), "Limits": set(limits), "Fan": fan, "Precreated": True,
-              "Writable": set(writable), "Readers": set(), "TrackPre": track_pre,
+              "Writable": set(writable), "Readers": set(), "TrackPre": track_pre, "Allowed": set(),
               "JobSeq": [dict(j, src=list(j["src"])) for j in jobs],
               "JobTypes": set(types), "FillNs": set(fill),
               "Faults": verif.Raw("{" + ", ".join(verif.tla_value(f) for f in faults) + "}")}
@@ -810,7 +810,7 @@ def fullsync_stage(v, sd, binary, name, *, contents, max_steps, acts=("http", "e
     for variant, asis in variants:
         consts = {"DsSeq": ["a"], "Ent": set(ent), "MaxBatch": max_batch, "MaxSteps": max_steps, "Acts": set(acts),
                   "ObsKinds": {"ent", "chg"}, "Limits": {0}, "Fan": fan, "Precreated": True, "Writable": {"a"},
-                  "TrackPre": False, "Readers": set(), "AsIs": asis, "SyncIds": set(sync_ids), "FsDs": "a"}
+                  "TrackPre": False, "Allowed": set(), "Readers": set(), "AsIs": asis, "SyncIds": set(sync_ids), "FsDs": "a"}
         nm = "%s_%s" % (name, variant)
         verif.gen_mc(sd, nm, "FullSync", consts, "FSpec" + ("Sample" if sample else ""),
                      invariants=["TypeOK"], props=() if (asis or sample) else ("FsProps",), view=None if sample else "fview",
@@ -1185,3 +1185,98 @@ def validate_raffle(sdk, trace):
         return True, nlines, 0, st
     verif.sys.stderr.write(txt[-2000:])
     raise Inconclusive("TraceRaffle validation failed to run")
+
+
+# ----------------------------------------------------------------------------
+# C18
+
+def ms_all_deps(explicit, main):
+    """explicit dependencies plus the ones implied by longer join paths (as the product derives them)"""
+    out, seen = [], set()
+    def add(d):
+        key = (d["ds"], tuple((j["ds"], j["pred"], j["inv"]) for j in d["joins"]))
+        if key not in seen and d["joins"]:
+            seen.add(key)
+            out.append(d)
+    for d in explicit:
+        add(d)
+    for d in explicit:
+        for i, j in enumerate(d["joins"]):
+            if j["ds"] != main:
+                add({"ds": j["ds"], "joins": d["joins"][i + 1:]})
+    return out
+
+
+def ms_stage(v, sd, binary, name, *, main, deps, ds, ent, contents, allowed, preds, max_steps, sample=False, seed=None,
+             fan=4, target=None, max_batch=1):
+    alld = ms_all_deps(deps, main)
+    def tl(d):
+        return {"ds": d["ds"], "joins": [dict(j) for j in d["joins"]]}
+    consts = {"DsSeq": list(ds), "Ent": set(ent), "MaxBatch": max_batch, "MaxSteps": max_steps,
+              "Acts": {"store", "catchup"}, "ObsKinds": set(), "Limits": {0}, "Fan": fan, "Precreated": True,
+              "Writable": set(ds), "TrackPre": False, "Readers": set(), "MsMain": main,
+              "MsExplicit": [tl(d) for d in deps], "MsDeps": [tl(d) for d in alld],
+              "Allowed": verif.Raw("{" + ", ".join("<<%s, %s, %d>>" % (verif.tla_value(a), verif.tla_value(b), c) for a, b, c in allowed) + "}")}
+    verif.gen_mc(sd, name, "MultiSource", consts, "MSpec" + ("Sample" if sample else ""), invariants=["TypeOK"],
+                 props=() if sample else ("MsProps",), view=None if sample else "mview", contents=contents, preds=preds,
+                 constraint="Emit", header="MEmitHeader")
+    out = os.path.join(v.wd, name + ".out")
+    st = verif.run_tlc(sd, name, out, seed=seed if sample else None, workers=4 if sample else None)
+    v.add_tlc(st)
+    stride_extra = 1
+    if target and st["emitted"] > target:
+        stride_extra = -(-st["emitted"] // target)
+        v.cov["stages"].append({"name": name + ":thinned", "emitted": st["emitted"], "replayed_every": stride_extra})
+    tot, results = verif.replay(binary, v.wd, out, tables="plain", adapters="go", label=name, stride_extra=stride_extra,
+                                per_world=150, rotate=True, seed=v.seed)
+    v.add_replay(tot, results, label=name)
+    os.remove(out)
+
+
+def check_C18(tier, seed):
+    v = Verdict("C18", tier, seed)
+    v.wd = verif.workdir("C18")
+    sd = verif.spec_copy(v.wd)
+    binary = verif.build_harness(v.wd)
+    thorough = tier == "thorough"
+    # id pools: main m1 m2, link l1 l2, dependency d1 d2
+    ents = ["m1", "m2", "l1", "l2", "d1", "d2"]
+    def J(ds, pred, inv):
+        return {"ds": ds, "pred": pred, "inv": inv}
+    shapes = {
+        # main entities point at the dependency entity (p): one inverse hop
+        "inv1": dict(deps=[{"ds": "d", "joins": [J("m", "p", True)]}],
+                     contents=[content(1), content(2), content(1, p=(1, ["d1"])), content(1, p=(1, ["d2"])), content(0, d=True)],
+                     writes={"m": (["m1", "m2"], [1, 3, 4, 5]), "d": (["d1", "d2"], [1, 2, 5])}),
+        # the dependency entity points at main (p): one forward hop; removed links must still be followed
+        "fwd1": dict(deps=[{"ds": "d", "joins": [J("m", "p", False)]}],
+                     contents=[content(1), content(2), content(1, p=(1, ["m1"])), content(1, p=(1, ["m2"])), content(0, d=True)],
+                     writes={"m": (["m1", "m2"], [1, 2]), "d": (["d1", "d2"], [1, 3, 4, 5])}),
+        # two hops through a link dataset: link -> dep (p, inverse), main -> link (q, inverse)
+        "inv2": dict(deps=[{"ds": "d", "joins": [J("l", "p", True), J("m", "q", True)]}],
+                     contents=[content(1), content(2), content(1, p=(1, ["d1"])), content(1, q=(1, ["l1"])),
+                               content(1, q=(1, ["l2"])), content(0, d=True)],
+                     writes={"m": (["m1", "m2"], [1, 4, 5]), "l": (["l1", "l2"], [1, 3, 6]), "d": (["d1"], [1, 2, 6])}),
+        # mixed: dep -> link forward (p), main -> link inverse (q)
+        "mixed2": dict(deps=[{"ds": "d", "joins": [J("l", "p", False), J("m", "q", True)]}],
+                       contents=[content(1), content(2), content(1, p=(1, ["l1"])), content(1, p=(1, ["l2"])),
+                                 content(1, q=(1, ["l1"])), content(0, d=True)],
+                       writes={"m": (["m1", "m2"], [1, 5]), "l": (["l1", "l2"], [1, 2]), "d": (["d1"], [3, 4, 6])}),
+    }
+    names = list(shapes)
+    for nm in shapes:
+        sh = shapes[nm]
+        allowed = [(d, e, c) for d, (es, cs) in sh["writes"].items() for e in es for c in cs]
+        dss = ["m", "l", "d"] if any(j["ds"] == "l" for d in sh["deps"] for j in d["joins"]) else ["m", "d"]
+        if nm in names:
+            ms_stage(v, sd, binary, "C18_" + nm, main="m", deps=sh["deps"], ds=dss, ent=ents, contents=sh["contents"],
+                     allowed=allowed, preds=("p", "q"), max_steps=5 if thorough else 4)
+        ms_stage(v, sd, binary, "C18_" + nm + "_deep", main="m", deps=sh["deps"], ds=dss, ent=ents, contents=sh["contents"],
+                 allowed=allowed, preds=("p", "q"), max_steps=8 if thorough else 7, sample=True, seed=seed,
+                 fan=2, target=8000 if thorough else 1200, max_batch=2)
+    v.assumptions = ["join shapes: one inverse hop, one forward hop, two inverse hops through a link dataset, forward+inverse; "
+                     "dependencies declared in JSON (track_queries declarations are not exercised)",
+                     "entity id pools per dataset role (main / link / dependency); batch size above the feed length "
+                     "(one page per run); the sink is DevNullSink behind a recording wrapper",
+                     "emitted may be a superset of the required set (the reference is a lower bound) but only ids of main"]
+    return v.finish(rule=RULE_REPLAY)
